@@ -277,6 +277,16 @@ func explore(sys sysDef, rep *reporter) bfsStats {
 			if t.merge {
 				st.MergeChecks++
 				if len(t.finds) == 0 && t.st.obs != nil && t.st.obs[t.letter] != t.oh {
+					// two histories with one key behave differently: either the key is unsound
+					// (machinery error) or the pool's future depends on something no clause lets
+					// it depend on (e.g. whether an observer ran).  The drain probe of the
+					// alternative decides: if it loses or mis-offers a transaction, that is the finding.
+					if dr := exec(&stateRec{hist: h}, nil, "drain", true); len(dr.Findings) > 0 {
+						for _, f := range dr.Findings {
+							rep.report(sys.Pool, sys.Cfg, "drain", h, f)
+						}
+						continue
+					}
 					st.MergeMismatch++
 					rep.run.Notes = append(rep.run.Notes, fmt.Sprintf("MERGE MISMATCH %s/%s: histories %v and %v have the same canonical key but letter %s gives different observations", sys.Pool, sys.Cfg, t.st.hist, t.hist, sys.Alphabet[t.letter]))
 				}
